@@ -11,6 +11,8 @@ func checkC09(p *Prog, r *Report) {
 	r.Rule("R1", "the look-up that decides the insertion of a binding and the insertion share one critical section; the single-binding look-up is present")
 	absenceThenInsert(p, ls, r, "R1", F("BindingManager.bindingEntries"), true, 1)
 	r.Rule("R2", "RemoveBinding keeps an entry ⇔ ¬(client address ∧ server feature equal); the per-entity removal keeps ⇔ ¬(client device ∧ client entity equal)")
+	r.Rule("R8", "every hand-written element-wise comparison of two slices of one type compares their lengths for equality: entity addresses are never matched by prefix (shared lint, C20-R6)")
+	sliceEqualityHelpers(p, r, "R8")
 	r.Rule("R7", "every read-modify-write of the binding list reads and stores inside one critical section")
 	rebuildAtomic(p, ls, r, "R7", F("BindingManager.bindingEntries"), 3)
 	applyRetain(p, r, "R2", "spine", "BindingManager", "RemoveBinding", retainSpec{Field: F("BindingManager.bindingEntries"),
@@ -25,6 +27,6 @@ func checkC09(p *Prog, r *Report) {
 	idRule(p, r, "R4", bindMgr)
 	r.Rule("R5", "the per-device listing filters on the peer identity (SKI of the client feature's device), the per-feature listing on the server feature address")
 	listingRule(p, r, "R5", bindMgr)
-	hasBindingRule(p, r)
+	hasBindingRule(p, r, "R6")
 	r.Assumes("reflect.DeepEqual and the address getters are not interpreted: the retain predicates are decided over which components are compared and how the comparisons are combined")
 }
